@@ -1,6 +1,6 @@
 // vinstr writes instrumented copies of Go files (a vsched.Yield before every statement, go
 // statements routed through vsched.Go) and an overlay JSON for `go test -overlay`.
-package main
+package vinstr
 
 import (
 	"bytes"
@@ -15,20 +15,23 @@ import (
 	"strconv"
 )
 
-func main() {
-	outDir := os.Args[1]
-	files := os.Args[2:]
+// Instrument writes instrumented copies of files into outDir and an overlay.json mapping the
+// original paths to them; extra maps further virtual paths to real files.
+func Instrument(outDir string, files []string, extra map[string]string) (string, error) {
 	overlay := map[string]string{}
 	for i, f := range files {
 		dst := filepath.Join(outDir, fmt.Sprintf("f%d_%s", i, filepath.Base(f)))
 		if err := instrument(f, dst); err != nil {
-			fmt.Fprintln(os.Stderr, "vinstr:", f, err)
-			os.Exit(1)
+			return "", fmt.Errorf("vinstr: %s: %v", f, err)
 		}
 		overlay[f] = dst
 	}
+	for k, v := range extra {
+		overlay[k] = v
+	}
 	b, _ := json.MarshalIndent(map[string]interface{}{"Replace": overlay}, "", " ")
-	os.WriteFile(filepath.Join(outDir, "overlay.json"), b, 0o644)
+	p := filepath.Join(outDir, "overlay.json")
+	return p, os.WriteFile(p, b, 0o644)
 }
 
 func yieldStmt(fset *token.FileSet, pos token.Pos) ast.Stmt {
